@@ -175,6 +175,8 @@ def run(ctx):
                                        want=want_rv[:20], kepler_part=(x[0] * z)[:20], dt=(lin.t - lin.t_ref)[:20],
                                        t_ref_kind=pb.dspec["t_ref_kind"]))
                     break
+                if np.any(near_pi):
+                    continue        # the data term inherits the op's error at that epoch: this point is not used further
                 var = lin.sig ** 2 + s_du ** 2
                 gauss = oracle.ln_normal_diag(lin.y, want_rv, var)
                 ctx.evaluations += 1
